@@ -114,6 +114,21 @@ def run(ctx, res):
                        "does not keep the cache borrowed" % (b.path, bad, self_reg, b.j["sig"]))
         apis.append(b)
     res.floor("C18.4 APIs returning borrows", len(apis), 12)
+    # (iii) receiver rule: an operation that writes to the cache must demand exclusive access, otherwise safe code could
+    #       change the cache while references / borrowing iterators obtained from it are alive
+    from .C19 import writers_reached, constructs_cache
+    for b in r.pub_methods():
+        ins = b.j["inputs"]
+        if not ins or ins[0].get("k") != "ref" or ins[0].get("mut") or not r.is_cache_ty(ins[0]["ty"]):
+            continue
+        if constructs_cache(ctx, b):
+            continue
+        res.count("C18.4iii shared-receiver methods")
+        bad = writers_reached(ctx, b)
+        res.oblige("C18.4iii `%s(&self)` performs no write" % b.name, not bad, key="C18.4iii:%s:writes-through-shared-receiver" % b.path,
+                   loc=span_str(b.span), rule="C18.4 receiver",
+                   msg="pub fn `%s` takes `&self` but reaches %s: it can be called while borrows of the cache are alive"
+                       % (b.path, ", ".join("%s (%s)" % (p, "; ".join(k)) for p, _b, k in bad[:3])))
     unprobed = []
     for b in apis:
         args = []
